@@ -1,11 +1,14 @@
 // C16 conformance harness: one group of source ranges (see c16_range.hpp).  Drives and records only.
 #include "c16_range.hpp"
 
-namespace c16
+
+// entry point of part "deque" (see c16_main.cpp)
+extern "C" void c16_part_deque(unsigned long long const seed, int const thorough_flag)
 {
-void run_deque(Sel &sel, bool const thorough)
-{
+  using namespace c16;
+  bool const thorough = thorough_flag != 0;
+  (void)thorough;
+  Sel sel(seed, thorough);
   seq_source<std::deque<int>>("deque", thorough ? 6U : 5U, thorough ? 6U : 3U, true, sel);
   index_source<std::deque<int>>("deque", 5);
-}
 }
